@@ -75,10 +75,13 @@ def _sites(fnode):
                 if n.id == b:
                     sites.append((k, "nameswap", "%s -> %s" % (b, a)))
                     break
+        elif isinstance(n, ast.Assign) and len(n.targets) == 1 and isinstance(n.targets[0], ast.Name) and isinstance(n.value, ast.BinOp) \
+                and isinstance(n.value.left, ast.Name) and n.value.left.id == n.targets[0].id and isinstance(n.value.op, (ast.Add, ast.Sub, ast.Mult, ast.Div)):
+            sites.append((k, "inplace", "%s = %s .. -> augmented assignment (in place)" % (n.targets[0].id, n.targets[0].id)))
         elif isinstance(n, ast.If) and len(n.body) == 1 and isinstance(n.body[0], (ast.Return, ast.Expr)) and not n.orelse:
             sites.append((k, "dropguard", "guard `if %s` removed" % ast.unparse(n.test)[:40]))
-        elif isinstance(n, ast.Call) and dotted(n.func) in ("np.sort", "np.unique", "verif.util.clean", "self._clean", "self.preaggregate", "copy.deepcopy", "np.nan_to_num") \
-                and n.args:
+        elif isinstance(n, ast.Call) and dotted(n.func) in ("np.sort", "np.unique", "verif.util.clean", "self._clean", "self.preaggregate", "copy.deepcopy", "np.nan_to_num",
+                                                             "np.array", "np.copy", "list") and n.args:
             sites.append((k, "dropcall", "%s(x) -> x" % dotted(n.func)))
     return sites
 
@@ -112,6 +115,11 @@ def _apply(fnode, k, op):
                 if n.id == b:
                     n.id = a
                     break
+        elif op == "inplace":
+            new = ast.AugAssign(target=ast.Name(id=n.targets[0].id, ctx=ast.Store()), op=n.value.op, value=n.value.right)
+            n.__class__ = ast.AugAssign
+            n.__dict__.clear()
+            n.__dict__.update(new.__dict__)
         elif op == "dropguard":
             n.test = ast.Constant(value=False)
         elif op == "dropcall":
